@@ -104,7 +104,7 @@ def own_neutral(st, info, ret):
     if st.own is None:
         return []
     o = z3.Const("o!own", Obj)
-    return [("own:reference-neutral", z3.ForAll([o], st.own[o] == info["own0"][o] + z3.If(z3.And(o == ret, ret != NULL), 1, 0)),
+    return [("own:reference-neutral", z3.ForAll([o], st.own[o] == info["own0"][o] + z3.If(z3.And(o == ret, ret != NULL, z3.Not(A.immortal(ret))), 1, 0)),
              {}, ("C18",))]
 
 
